@@ -23,8 +23,9 @@ def unescape(t):
     return t.replace('&lt;', '<').replace('&gt;', '>').replace('&amp;', '&')
 
 
-def analyse(s):
-    """returns (error or None, projected plain string, {token: frozenset(formatting)})"""
+def analyse(s, chars=None):
+    """returns (error or None, projected plain string, {token: frozenset(formatting)}); with a list `chars`: appends (character, formatting)
+    for every character of text outside the stand-ins"""
     alts = []
     def keep(m): alts.append(m.group(0)); return '\x00%d\x00' % (len(alts) - 1)
     s2 = ALT.sub(keep, s)
@@ -39,6 +40,7 @@ def analyse(s):
         for kind, name, css in stack:
             if kind == 'fmt': cur |= ({name} if name != 'span' else {'css:' + c for c in css})
         for tok in src.TOKEN.findall(t): fmt_at[tok] = frozenset(cur)
+        if chars is not None and not any(k != 'fmt' for k, _, _ in stack): chars.extend((ch, frozenset(cur)) for ch in unescape(t))
         out.append(unescape(t) if not any(k == 'raw' for k, _, _ in stack) else t)
         return None
     for m in TAG.finditer(s2):
@@ -129,6 +131,54 @@ AFTER_NESTED_RUN = set()
 AFTER_BOX = set()
 
 
+def run_format(run, head):
+    """recognised formatting switched on for a w:r (same table as expected_formats)"""
+    props = {}
+    rpr = src.child(run, 'w:rPr')
+    if rpr is not None:
+        for c in rpr:
+            if isinstance(c.tag, str): props[src.etree.QName(c.tag).localname] = src.wval(c)
+    f = set(head)
+    for k, v in props.items():
+        v = v or None
+        if k in ('b', 'i') and (v is None or v not in OFF): f.add(k)
+        elif k == 'strike' and (v is None or v not in OFF): f.add('s')
+        elif k == 'u' and v != 'none': f.add('u')
+        elif k == 'vertAlign' and v in ('superscript', 'subscript'): f.add(v[:3])
+        elif k == 'caps' and (v is None or v not in OFF): f.add('css:text-transform:uppercase')
+        elif k == 'smallCaps' and (v is None or v not in OFF): f.add('css:font-variant:small-caps')
+        elif k == 'highlight': f.add('css:background-color:' + (v or ''))
+        elif k == 'sz': f.add('css:font-size:' + (v or '') + 'pt')
+        elif k == 'color': f.add('css:color:' + (v or ''))
+    return frozenset(f)
+
+
+def simple_chars(parinfo):
+    """for a SIMPLE paragraph (runs holding only properties and w:t, no list, not nested, not in a link or a note): the expected
+    (character, formatting) sequence of its text - also for text without token, e.g. formatted blanks; None for other paragraphs"""
+    e = parinfo.e
+    if parinfo.in_link or parinfo.nested_in_par or parinfo.encloses_par or parinfo.is_list or parinfo.numId is not None: return None
+    if any(src.ptag(a) in ('w:footnote', 'w:endnote', 'w:comment') for a in e.iterancestors()): return None
+    head = set()
+    m = re.fullmatch(r'Heading([1-6])', parinfo.style or '')
+    if m: head = {'h' + m.group(1)}
+    out = []
+    for c in e:
+        if not isinstance(c.tag, str): continue
+        t = src.ptag(c)
+        if t in ('w:pPr', 'w:proofErr', 'w:bookmarkStart', 'w:bookmarkEnd'):
+            if t == 'w:pPr' and any(src.ptag(x) == 'w:tabs' for x in c.iter()): return None        # (tab-stop definitions: known finding of C02)
+            continue
+        if t != 'w:r': return None
+        f = run_format(c, head)
+        for k in c:
+            if not isinstance(k.tag, str): continue
+            if src.ptag(k) == 'w:rPr': continue
+            if src.ptag(k) != 'w:t': return None
+            out.extend((ch, f) for ch in (k.text or ''))
+    return out
+
+
 def one(ctx, data, meta=None):
     ctx.evaluations += 1; good = True
     parts = src.parts_of(data)
@@ -152,22 +202,33 @@ def one(ctx, data, meta=None):
                 for st in list(r.get('hs') or []) + [x for run in (r.get('rs') or []) for x in run[0]]:
                     okst = ('<' not in st) and ('>' not in st) and st[:1] not in ('', '/', ' ', '\t', '\n', '\r', '\x0b', '\x0c')
                     ctx.count('style string satisfies GoodStyle' if okst else 'style string outside GoodStyle (theorem hypothesis not met)')
-    exp = {}; AFTER_NESTED_RUN.clear(); AFTER_BOX.clear()
+    exp = {}; AFTER_NESTED_RUN.clear(); AFTER_BOX.clear(); exp_chars = {}
     for path, root in parts.items():
         for p in src.paragraphs(root, path):
             if not p.in_link: exp.update(expected_formats(p))
+            sc = simple_chars(p)
+            if sc and p.tokens: exp_chars[p.tokens[0]] = sc
     for v in VIEWS[:5]:
         if 'ok' not in ih.get(v, {}) or 'ok' not in ip.get(v, {}): ctx.skipped_raises += 1; continue
         hs, ps = flat(ih[v]['ok'], 4), flat(ip[v]['ok'], 4)
         if len(hs) != len(ps):
             ctx.fail('paragraph count differs between html on and off', {**case, 'attribute': v}, [len(hs), len(ps)]); good = False; continue
         for k, (h, pl) in enumerate(zip(hs, ps)):
-            err, proj, fmt_at = analyse(h)
+            chars = []
+            err, proj, fmt_at = analyse(h, chars)
             c = {**case, 'attribute': v, 'paragraph_index': k}
             if err:
                 ctx.fail('html paragraph is not balanced / escaped / within the vocabulary', c, {'html': h, 'problem': err}); good = False; continue
             if proj != pl:
                 ctx.fail('deleting the formatting tags and unescaping does not give the html=False string', c, {'html': h, 'projected': proj, 'plain': pl}); good = False
+            # a simple paragraph, character by character: also text without token (formatted blanks) carries exactly its formatting
+            key = next((t for t in fmt_at if t in exp_chars), None)
+            if key is not None: ctx.count('simple paragraph compared character by character (formatted blanks included)')
+            if key is not None and chars != exp_chars[key] and all(exp.get(t) == f for t, f in fmt_at.items() if t in exp):
+                i_ = next((n for n, (a_, b_) in enumerate(zip(chars, exp_chars[key])) if a_ != b_), min(len(chars), len(exp_chars[key])))
+                ctx.fail('tags around a stretch of text are not exactly its recognised formatting switched on', c,
+                         {'at_character': i_, 'expected': [exp_chars[key][i_][0], sorted(exp_chars[key][i_][1])] if i_ < len(exp_chars[key]) else None,
+                          'observed': [chars[i_][0], sorted(chars[i_][1])] if i_ < len(chars) else None, 'html': h}); good = False
             for tok, f in fmt_at.items():
                 if tok in exp and exp[tok] != f:
                     ctx.fail('tags around a stretch of text are not exactly its recognised formatting switched on', c,
